@@ -83,4 +83,14 @@ def run(ctx):
            "individual_map is filled from the shared nodes in a loop that ends before the first node is added" if okp else
            "the mapping of individuals attached to shared nodes is not completed before nodes are added: an individual that owns a "
            "shared and a new node is duplicated when the new node comes first")
+    # an edge of `other` is copied when EITHER end is new to self (new ancestors above shared nodes included)
+    adds_e = [n_ for c_, a_, n_ in F.calls if c_ == "tsk_edge_table_add_row"]
+    if adds_e:
+        conds = [" ".join(tu.src(i.kids[0]).split()) for i, br in F.enclosing_ifs(adds_e[0])]
+        flat = " ".join(conds)
+        oke = re.search(r"other_node_mapping\[edge\.parent\] == TSK_NULL", flat) is not None and \
+            re.search(r"other_node_mapping\[edge\.child\] == TSK_NULL", flat) is not None and "||" in flat
+        ctx.ob(rule, "union|edge-condition", oke, tu.loc(adds_e[0]),
+               "an edge is added when its parent OR its child is new" if oke else
+               "edges are added only under %s: edges whose other end is the new node are dropped" % conds)
     lib_mem.c_lints(ctx, ctx.program(), scopes.lib_scope("C14"))
